@@ -264,8 +264,8 @@ def query_set(kind, obj, n):
     elif kind == "pair" and hyp:
         qs += [("endpoint_coords", lambda: obj.endpoint_coords("klein"), "val"), ("get_endpoints", lambda: obj.get_endpoints().proj_data, "proj")]
     elif kind == "segment":
-        qs += [("ideal_endpoint_coords", lambda: obj.ideal_endpoint_coords("klein"), "val"), ("endpoint_coords", lambda: obj.endpoint_coords("klein"), "val"),
-               ("geodesic", lambda: obj.geodesic().proj_data, "proj"), ("ideal_basis", lambda: obj.ideal_basis, "proj")]
+        qs += [("ideal_endpoint_coords", lambda: np.concatenate([np.ones(np.asarray(obj.ideal_endpoint_coords("klein")).shape[:-1] + (1,)), obj.ideal_endpoint_coords("klein")], -1), "pairs"), ("endpoint_coords", lambda: obj.endpoint_coords("klein"), "val"),
+               ("geodesic", lambda: obj.geodesic().proj_data, "pairs"), ("ideal_basis", lambda: obj.ideal_basis, "pairs")]
         if n == 2:
             qs.append(("circle_parameters", lambda: obj.circle_parameters(model="poincare"), "circle"))
     elif kind == "geodesic":
@@ -274,23 +274,29 @@ def query_set(kind, obj, n):
             qs.append(("circle_parameters", lambda: obj.circle_parameters(model="poincare"), "circle"))
     elif kind == "polygon" and hyp:
         qs += [("get_edges", lambda: obj.get_edges().proj_data, "proj"), ("get_vertices", lambda: obj.get_vertices().proj_data, "proj"),
-               ("edges_ideal", lambda: obj.get_edges().ideal_endpoint_coords("klein"), "val"), ("edges_shape", lambda: np.array(obj.get_edges().shape), "val")]
+               ("edges_ideal", lambda: obj.get_edges().ideal_endpoint_coords("projective"), "pairs"), ("edges_shape", lambda: np.array(obj.get_edges().shape), "val")]
         if n == 2:
             qs.append(("edge_circles", lambda: obj.get_edges().circle_parameters(model="poincare"), "circle"))
     elif kind in ("polygon", "ppolygon"):
         qs += [("get_edges", lambda: obj.get_edges().proj_data, "proj"), ("get_vertices", lambda: obj.get_vertices().proj_data, "proj")]
     elif kind == "tangent":
+        def origin_contract():
+            # origin_to is "not uniquely determined": what is specified is where the origin tangent goes (first two rows, as a point and as a
+            # direction) and that the matrix preserves the form
+            M = np.asarray(obj.origin_to().matrix, dtype=float)
+            J = np.diag([-1.0] + [1.0] * (M.shape[-1] - 1))
+            return (M[..., 0, :], M[..., 1, :], np.einsum("...ij,jk,...lk->...il", M, J, M) - J)
         qs += [("vector", lambda: np.array(obj.vector), "pos"), ("point", lambda: np.array(obj.point), "proj"),
-               ("normalized", lambda: obj.normalized().aux_data, "pos"), ("origin_to", lambda: obj.origin_to().matrix, "val"),
+               ("normalized", lambda: obj.normalized().aux_data, "tangent"), ("origin_to", origin_contract, "iso"),
                ("point_along", lambda: obj.point_along(0.5).proj_data, "proj"), ("vector_again", lambda: np.array(obj.vector), "pos")]
     elif kind == "horosphere":
         qs += [("sphere_parameters", lambda: obj.sphere_parameters(model="poincare"), "val"), ("center_coords", lambda: obj.center_coords("klein"), "val")]
     elif kind == "subspace" and hyp:
         qs += [("ideal_basis_coords", lambda: obj.ideal_basis_coords("klein"), "val"), ("sphere_parameters", lambda: obj.sphere_parameters(model="poincare"), "val")]
     elif kind == "hyperplane":
-        qs += [("spacelike_vector", lambda: np.array(obj.spacelike_vector), "proj"), ("ideal_basis", lambda: np.array(obj.ideal_basis), "proj")]
+        qs += [("spacelike_vector", lambda: np.array(obj.spacelike_vector), "proj")]        # (the ideal basis is any basis of the hyperplane)
     elif kind == "transformation":
-        qs += [("inv", lambda: obj.inv().matrix, "val")]
+        qs += [("inv", lambda: obj.inv().matrix, "mat")]
         if isinstance(obj, H.Isometry) and n == 2:
             qs += [("fixed_point_pair", lambda: obj.fixed_point_pair().proj_data, "proj"), ("fixed_point", lambda: obj.fixed_point().proj_data, "proj"),
                    ("axis", lambda: obj.axis().proj_data, "proj")]
@@ -345,7 +351,33 @@ def _cmp_q(a, b, how, tol):
             elif not same_val(np.real(x), np.real(y), tol):
                 return False
             continue
-        if how == "val" or x.ndim == 0:
+        if how == "iso":
+            if pos == 0:
+                ok = rows_proj_eq(x, y, tol)
+            elif pos == 1:
+                from props._hist import rows_pos_eq
+                ok = rows_pos_eq(x, y, tol)
+            else:
+                ok = same_val(x, y, 1e-6)
+            if not ok:
+                return False
+            continue
+        if how == "mat":
+            if not mats_proj_eq(x, y, tol):
+                return False
+            continue
+        if how == "tangent" and x.ndim >= 2 and x.shape[-2] == 2 and np.all(np.isfinite(x)) and np.all(np.isfinite(y)):
+            from props._hist import rows_pos_eq
+            if not (rows_proj_eq(x[..., 0, :], y[..., 0, :], tol) and rows_pos_eq(x[..., 1, :], y[..., 1, :], tol)):
+                return False
+            continue
+        if how == "pairs" and x.ndim >= 2 and np.all(np.isfinite(x)) and np.all(np.isfinite(y)):
+            # an unordered pair of points per unit (ideal endpoints), each up to scale
+            for idx in np.ndindex(*x.shape[:-2]):
+                if not (rows_proj_eq(x[idx], y[idx], tol) or rows_proj_eq(x[idx], y[idx][::-1], tol)):
+                    return False
+            continue
+        if how in ("val", "pairs", "tangent") or x.ndim == 0:
             ok = same_val(np.real(x), np.real(y), tol) and same_val(np.imag(x), np.imag(y), tol)
         elif not (np.all(np.isfinite(x)) and np.all(np.isfinite(y))):
             ok = same_val(np.real(x), np.real(y), tol)
@@ -509,8 +541,10 @@ def run_points(inp):
                 if not (allclose(img, k[idx], 1e-7) and allclose(M @ J @ M.T, J, 1e-7)):
                     bad.append({"what": "origin_to_target", "idx": list(idx)})
                     break
-                if not allclose(M, u.proj_data, 1e-7):
-                    bad.append({"what": "origin_to_unit", "idx": list(idx), "composite": M.tolist(), "unit": u.proj_data.tolist()})
+                # (the matrix itself is "not uniquely determined": unit and composite are compared through the contract only)
+                imgu = (u @ org).coords("klein")
+                if not allclose(imgu, k[idx], 1e-7):
+                    bad.append({"what": "origin_to_unit_target", "idx": list(idx)})
                     break
     return {"bad": bad}
 
@@ -661,7 +695,7 @@ def run_construct(inp):
         v2 = g.normal(size=shape + (n + 1,))
         for idx in np.ndindex(*shape):
             U = H.TangentVector(H.Point(k[idx].copy(), model="klein"), v[idx].copy())
-            if not (rows_proj_eq(TV.proj_data[idx], U.proj_data, 1e-9) and allclose(TV.aux_data[idx], U.aux_data, 1e-9)):
+            if not (rows_proj_eq(TV.proj_data[idx], U.proj_data, 1e-9) and _cmp_q((TV.aux_data[idx],), (U.aux_data,), "tangent", 1e-9)):
                 bad.append({"what": "tangent", "idx": list(idx)})
                 break
         if op == "tangent_ops" and not bad:
@@ -691,14 +725,17 @@ def run_construct(inp):
             for idx in np.ndindex(*shape):
                 U = H.TangentVector(H.Point(k[idx].copy(), model="klein"), v[idx].copy())
                 W = H.TangentVector(H.Point(k[idx].copy(), model="klein"), v2[idx].copy())
-                if not allclose(nrm.aux_data[idx], fresh(U).normalized().aux_data, 1e-8):
+                if not _cmp_q((nrm.aux_data[idx],), (fresh(U).normalized().aux_data,), "tangent", 1e-8):
                     bad.append({"what": "normalized", "idx": list(idx)})
                     break
                 if not allclose(ang[idx], np.array(fresh(U).angle(fresh(W))), 1e-7):
                     bad.append({"what": "angle", "idx": list(idx)})
                     break
-                if not allclose(ot.proj_data[idx], fresh(U).origin_to().proj_data, 1e-7):
-                    bad.append({"what": "tangent_origin_to", "idx": list(idx)})
+                from props._hist import rows_pos_eq
+                Mo = np.asarray(ot.proj_data[idx], dtype=float)
+                Jm = np.diag([-1.0] + [1.0] * n)
+                if not (rows_proj_eq(Mo[0], U.aux_data[0], 1e-7) and rows_pos_eq(Mo[1], U.aux_data[1], 1e-7) and allclose(Mo @ Jm @ Mo.T, Jm, 1e-7)):
+                    bad.append({"what": "tangent_origin_to", "idx": list(idx), "expected": "origin tangent goes to the unit's tangent vector, form preserved"})
                     break
                 if not rows_proj_eq(pa.proj_data[idx], fresh(U).normalized().point_along(0.7).proj_data, 1e-7):
                     bad.append({"what": "point_along", "idx": list(idx)})
@@ -862,7 +899,7 @@ def run_struct(inp):
         if type(obj) is not type(X):
             bad.append({"what": what + "_type", "got": type(obj).__name__})
             return False
-        if not np.array_equal(np.asarray(obj.proj_data)[oidx], pd[idx]):
+        if not data_proj_eq(kind, np.asarray(obj.proj_data)[oidx], pd[idx], 1e-12):
             bad.append({"what": what + "_proj", "idx": list(idx)})
             return False
         if ad is not None and not aux_proj_eq(kind, np.asarray(obj.aux_data)[oidx], ad[idx], 1e-7):
